@@ -24,7 +24,7 @@ def _alarm(signum, frame):
 def main():
     prop, cases_file, out_file, tier = sys.argv[1:5]
     warnings.simplefilter("ignore")
-    os.environ.setdefault("VERIF_TIER", tier)
+    os.environ["VERIF_TIER"] = tier
     from vf import core
     mod = core.load_prop(prop)
     from vf.monitors import steps
